@@ -459,7 +459,6 @@ def run(c):
     for k in range(n_worlds):
         cfg = bc.random_config(c.rng)
         if k < 3: cfg = bc.config_str(own=bc.OWN[k])
-        cfg = cfg.replace("raw=1", "raw=0")     # raw strings do not interact with handles (and see C05's finding)
         wit, st = gen_resource_world(c.rng, k, cfg)
         for a, b in st.items(): stats[a] = stats.get(a, 0) + b
         items.append((cfg, wit))
